@@ -21,6 +21,7 @@ func main() {
 	}
 	if len(os.Args) > 1 {
 		b, _ := os.ReadFile(os.Args[1])
+		in = opsim.Input{}
 		json.Unmarshal(b, &in)
 	}
 	obs := opsim.Run(in)
